@@ -8,6 +8,8 @@ import AspireModel.Model.Schedule
 import AspireModel.Model.Smc
 import AspireModel.Model.Eval
 import AspireModel.Model.CkptFile
+import AspireModel.Model.Ctx
+import AspireModel.Model.Wiring
 import AspireModel.Driver
 -- property theorems (these import single Mathlib modules)
 import AspireModel.Props.C02
@@ -22,3 +24,5 @@ import AspireModel.Props.C12
 import AspireModel.Props.C16
 import AspireModel.Props.C17
 import AspireModel.Props.C18
+import AspireModel.Props.C19
+import AspireModel.Props.C20
